@@ -33,6 +33,7 @@ type peSlice struct {
 	lenLo, lenHi int64 // when arr == nil && !isNil: a slice whose length is only known to lie in [lenLo, lenHi] (lenHi < 0: unbounded)
 }
 type peStruct struct{ f map[string]peVal }
+type peLimbs struct{ v []peVal } // a value of type [N]uint64 (copied on assignment, like the array it models)
 type pePtr struct{ to *peStruct }
 type peNil struct{}
 type peErr struct{}                 // some non-nil error
@@ -73,8 +74,17 @@ func (e *peEval) call(fd *ast.FuncDecl, recv peVal, args []peVal) (res []peVal) 
 	}
 	defer func() { e.depth-- }()
 	fr := &peFrame{vars: map[types.Object]peVal{}}
+	cp := func(v peVal) peVal {
+		if l, ok := v.(*peLimbs); ok {
+			return &peLimbs{v: append([]peVal{}, l.v...)}
+		}
+		return v
+	}
+	for i := range args {
+		args[i] = cp(args[i])
+	}
 	if fd.Recv != nil && len(fd.Recv.List) == 1 && len(fd.Recv.List[0].Names) == 1 {
-		fr.vars[e.p.Info.Defs[fd.Recv.List[0].Names[0]]] = recv
+		fr.vars[e.p.Info.Defs[fd.Recv.List[0].Names[0]]] = cp(recv)
 	}
 	i := 0
 	if fd.Type.Params != nil {
@@ -128,6 +138,12 @@ func (e *peEval) zero(t types.Type) peVal {
 		return peSlice{isNil: true}
 	case *types.Interface, *types.Pointer:
 		return peNil{}
+	case *types.Array:
+		out := &peLimbs{}
+		for i := int64(0); i < u.Len(); i++ {
+			out.v = append(out.v, e.zero(u.Elem()))
+		}
+		return out
 	}
 	e.fail("zero value of %s", t)
 	return nil
@@ -352,6 +368,9 @@ func (e *peEval) define(l ast.Expr, v peVal, fr *peFrame, def bool) {
 	if o == nil {
 		e.fail("unresolved %s", id.Name)
 	}
+	if l, ok := v.(*peLimbs); ok {
+		v = &peLimbs{v: append([]peVal{}, l.v...)}
+	}
 	fr.vars[o] = e.conv(v, o.Type())
 }
 
@@ -431,8 +450,23 @@ func (e *peEval) store(l ast.Expr, v peVal, fr *peFrame) {
 	switch x := ast.Unparen(l).(type) {
 	case *ast.Ident:
 		o := p.objOf(x)
+		if l, ok := v.(*peLimbs); ok {
+			v = &peLimbs{v: append([]peVal{}, l.v...)}
+		}
 		fr.vars[o] = e.conv(v, o.Type())
 	case *ast.IndexExpr:
+		if la, isLimbs := e.expr(x.X, fr).(*peLimbs); isLimbs {
+			iv, ok := e.expr(x.Index, fr).(peInt)
+			if !ok || iv.v < 0 || int(iv.v) >= len(la.v) {
+				e.fail("limb store with a non-concrete or out-of-range index at %s", p.posStr(x))
+			}
+			cv := e.conv(v, types.Typ[types.Uint64])
+			if ci, isInt := cv.(peInt); isInt {
+				cv = peBits{constVec(uint64(ci.v)), 64}
+			}
+			la.v[iv.v] = cv
+			return
+		}
 		sl, ok := e.expr(x.X, fr).(peSlice)
 		iv, ok2 := e.expr(x.Index, fr).(peInt)
 		if !ok || !ok2 || sl.arr == nil {
@@ -612,6 +646,12 @@ func (e *peEval) expr(x ast.Expr, fr *peFrame) peVal {
 		if !ok {
 			e.fail("index `%s` is not concrete at %s", p.exprStr(y.Index), p.posStr(y))
 		}
+		if la, isLimbs := base.(*peLimbs); isLimbs {
+			if iv.v < 0 || int(iv.v) >= len(la.v) {
+				e.fail("index %d out of range [0,%d) at %s", iv.v, len(la.v), p.posStr(y))
+			}
+			return la.v[iv.v]
+		}
 		sl, ok := base.(peSlice)
 		if !ok || sl.arr == nil {
 			e.fail("indexing %s at %s", p.exprStr(y.X), p.posStr(y))
@@ -648,6 +688,24 @@ func (e *peEval) expr(x ast.Expr, fr *peFrame) peVal {
 		tv, ok := p.Info.Types[y]
 		if !ok {
 			e.fail("composite literal at %s", p.posStr(y))
+		}
+		if arr, isArr := tv.Type.Underlying().(*types.Array); isArr {
+			out := &peLimbs{}
+			for i := int64(0); i < arr.Len(); i++ {
+				out.v = append(out.v, e.zero(arr.Elem()))
+			}
+			for i, el := range y.Elts {
+				if _, isKV := el.(*ast.KeyValueExpr); isKV || i >= len(out.v) {
+					e.fail("keyed array literal at %s", p.posStr(y))
+				}
+				cv := e.conv(e.expr(el, fr), arr.Elem())
+				if ci, isInt := cv.(peInt); isInt {
+					w, _ := typeWidth(arr.Elem())
+					cv = peBits{constVec(uint64(ci.v)).trunc(w), w}
+				}
+				out.v[i] = cv
+			}
+			return out
 		}
 		st, ok := tv.Type.Underlying().(*types.Struct)
 		if !ok {
